@@ -100,6 +100,13 @@ def run_case(case, rep, record=True):
                 continue
             side, seed, draw = h.pick_seed(act, op[-2], op[-1])
             vec = vector_of(spec, act)
+            # the documented wrap-around: a host index beyond the subnet's size names host (index mod size)
+            size, room = spec.subnets[act.target[0]], max(spec.subnets)
+            k_alias = (nops + act.target[1]) % 3
+            if k_alias and vec[2] + k_alias * size < room:
+                vec[2] += k_alias * size
+                if record:
+                    rep.count("host-index-alias")
             idx = h.real_index[act.key()]
             outs = []
             for e, m in zip(envs, MODE_LIST):
@@ -214,6 +221,10 @@ def main(tier, replay=None):
     for name in sources.shipped_names():
         run_case(dict(source={"kind": "shipped", "name": name}, modes={},
                       ops=[("p", i * 7, "lo" if i % 3 else "hi", i) for i in range(30)]), rep)
+        # two episodes: progress to the goal, reset, a little progress, then every near-miss class in turn
+        run_case(dict(source={"kind": "shipped", "name": name}, modes={},
+                      ops=[("p", 0, "lo", i) for i in range(28)] + [("x",)] + [("p", 0, "lo", i) for i in range(3)]
+                      + [("n", k, j, "lo", 0) for j in range(4) for k in range(7)]), rep)
     nshards = 16 if tier == "thorough" else 8
     total = 16 * 2000 if tier == "thorough" else 800
     for p in engine.run_shards(_shard, nshards, common.verif_seed(), tier=tier, n_cases=total // nshards):
